@@ -36,38 +36,20 @@ def run(ctx):
                      "operand (SWAP) or evaluated, never decided without evaluation" % sorted(s))
     ctx.ob("R3", "cell(SFunction,SFunction)", r1 and r2, ctx.where(body),
            "the first function is evaluated (R1) and its value meets the second through cell(value,SFunction) (R2)")
-    # R4
-    us = prog.one("unify_sfunction")
-    if us is None:
+    # R4: every return of unify_sfunction is <value of this function term>.unify(other, ss)
+    import funcs
+    fa = funcs.analyse(prog, ctx)
+    if fa is None:
         ctx.missing("R4", "unify_sfunction")
         return
-    ctx.fn(us)
-    w = Walker(us, max_visits=2)
-    ps = w.paths()
-    ctx.stats["paths_walked"] += len(ps)
+    ctx.fn(fa["us"])
+    ctx.fn(fa["dispatcher"])
     n = 0
-    for p in ps:
-        if p.end != "return":
-            continue
-        r = p.ret
+    seen = {}
+    for label, ok, why in fa["returns"]:
         n += 1
-        ok = False
-        why = "returns %s" % show(r)
-        if r[0] == "call" and r[1].endswith("Unifiable::unify"):
-            val, oth, s = (r[2] + (None,) * 3)[:3]
-            v = strip(val)
-            ok = (v[0] == "call" and v[1].split("::")[-1].startswith("evaluate_") and
-                  strip(oth) == ("param", 3, us.locals[3].get("name") or "") and
-                  strip(s) == ("param", 4, us.locals[4].get("name") or "") and
-                  len(v[2]) >= 2 and strip(v[2][0])[0] == "param" and strip(v[2][0])[1] == 2 and
-                  strip(v[2][1]) == strip(s))
-        if not any(v_ is True for c, v_, _ in p.decisions if c[0] == "call" and c[1].endswith("::eq")):
-            # no function name matched: unknown function, nothing to evaluate
-            n -= 1
-            continue
-        inst = "path@bb%d" % p.blocks[-1]
-        for e in p.calls():
-            if e["callee"].split("::")[-1].startswith("evaluate_"):
-                inst = e["callee"].split("::")[-1]
-        ctx.ob("R4", inst, ok, ctx.where(us), why + "; required: evaluate_X(terms, ss).unify(other, ss)")
-    ctx.floor("R4", n, 5, "returning paths of unify_sfunction")
+        k = seen.get(label, 0)
+        seen[label] = k + 1
+        ctx.ob("R4", label if k == 0 else "%s#%d" % (label, k), ok, ctx.where(fa["us"]), why)
+    ctx.floor("R4", n, 1, "value-returning paths of unify_sfunction")
+    ctx.floor("R4/names", len(fa["name2eval"]), 5, "function names dispatched to evaluators")
